@@ -311,7 +311,7 @@ def slot_plan(ns, tier, own, qctx):
         return [(c, 4) for c in one_at_a_time(ns, SLOT_BASIS)]
     first = one_at_a_time(ns, SLOT_BASIS)
     if ns == 2:
-        out = [(c, 4) for c in first]
+        out = [(c, 4 if i % 2 == 0 else 2) for i, c in enumerate(first)]
         more = [(x, y) for x in Q2 for y in Q2]
         for c in more:
             if c not in first and (c, 1) not in out:
@@ -600,7 +600,7 @@ def extra_grams(tier, seed, start_gid):
     if room != per:
         out += [filler() for _ in range(room)]
     shared = [] if only else shared_c09(tier)
-    step = 8 if tier == "quick" else 25
+    step = 8 if tier == "quick" else 40
     out += [g for i, g in enumerate(shared) if i % step == 0]
     for i, g in enumerate(out):
         g.gid = start_gid + i
